@@ -79,15 +79,15 @@ func init() {
 	{
 		mp := &multiPhase{}
 		mp.add(e2PhaseFor("C09", e2Oracles{merges: true, replica: true}))
-		mp.add(racePlan(40, 800), func(w *W, idx int) {
+		mp.add(racePlan(40, 2400), func(w *W, idx int) {
 			withWatchdog(w, idx, fmt.Sprintf("E3:merge-linearizability:round%d", idx), 5*time.Minute, func() { mergeLinRound(w, idx) })
 		})
-		mp.add(streamPhaseFor("C09", 4, 40))
+		mp.add(streamPhaseFor("C09", 4, 100))
 		mp.add(probePhaseFor("C09"))
 		mp.add(func(tier string) Plan {
 			n := 4
 			if tier == "thorough" {
-				n = 32
+				n = 96
 			}
 			return Plan{Cases: n, Workers: 2, MaxProcs: 8, Timeout: 40 * time.Minute, HangIsViol: true}
 		}, func(w *W, idx int) {
